@@ -282,3 +282,17 @@ Proof. intros H. unfold tabs_ok in H. rewrite forallb_forall in H.
   - intros a b E. apply Nat.eqb_eq in E. subst b. apply Nat.eqb_refl.
   - intros a Ha. exact (proj1 (HA a Ha)).
   - intros a Ha. exact (proj2 (HA a Ha)). Qed.
+
+(* a catalogued wrapper finds the value stored under its class in a FRESH context
+   (nothing looked up, hence nothing memoised, before) *)
+Lemma reach_found (T : tabs) (cat : list (nat * nat)) :
+  tabs_ok T = true -> tabs_reach T cat = true ->
+  forall k b v fuel, In (k, b) cat -> 2 <= fuel ->
+    t_run T fuel [OSet b v; OItem k] = [OUnit; OVal v].
+Proof. intros Hok Hr k b v fuel Hin Hf. unfold t_run.
+  rewrite (refines nat nat Nat.eqb _ _ _ (tabs_ok_sound T Hok) fuel _ Hf); [|reflexivity].
+  unfold tabs_reach in Hr. rewrite forallb_forall in Hr. specialize (Hr (k, b) Hin).
+  cbn [fst snd] in Hr. apply andb_prop in Hr as [H1 H2]. apply Nat.eqb_eq in H2.
+  apply negb_true_iff in H1.
+  cbn [Ctx.spec_run Ctx.spec_step Ctx.set]. unfold Ctx.spec_lookup. cbn [Ctx.find].
+  rewrite H1, H2, Nat.eqb_refl. destruct (Nat.eqb k b); reflexivity. Qed.
